@@ -9,6 +9,7 @@
 
 import asyncio
 import hashlib
+import signal
 
 from sim.env import SimEnv, UNIT
 from props import httprig
@@ -128,6 +129,19 @@ def make_app(kind):
 # ---------------------------------------------------------------------------
 # one connection
 
+WALL_CAP = 20.0  # seconds of real time for one delivery (normal: milliseconds)
+
+
+class _WallWatchdog(KeyboardInterrupt):
+    """Raised from SIGALRM when code under test spins without ever yielding to the loop
+    (the simulator's iteration cap cannot see that).  A KeyboardInterrupt subclass because
+    asyncio lets only those escape from a task step."""
+
+
+def _on_alarm(signum, frame):
+    raise _WallWatchdog()
+
+
 
 class Obs:
     """What one delivery of the stream produced."""
@@ -155,9 +169,36 @@ def deliver(stream, seg, app_kind, server_kwargs, full_log=False, extra_tapes=No
     cuts = [c for c in (seg.get("cuts") or []) if isinstance(c, int)]
     gaps = [max(0, g) for g in (seg.get("gaps") or []) if isinstance(g, int)]
     cap = 60_000 + 12 * len(stream)
-    with SimEnv(tapes, max_iters=cap, full_log=full_log) as env:
-        state = {}
+    state = {}
+    o.status = "wall_watchdog"
+    o.main_exc = None
+    o.received = b""
+    o.eof = o.rst = False
+    o.records = []
+    o.loop_errors = []
+    o.recs = []
+    o.stats = {"iterations": 0, "sim_time": 0.0, "faults": {}, "probes": {}, "sig": "",
+               "digest": "wall_watchdog", "events": 0}
+    o.log_head = []
+    o.log_full = None
+    o.nseg = 0
+    old_handler = signal.signal(signal.SIGALRM, _on_alarm)
+    signal.setitimer(signal.ITIMER_REAL, WALL_CAP + len(stream) * 2e-4, 3.0)
+    try:
+        _deliver_inner(o, state, stream, cuts, gaps, cap, tapes, app_kind, kw, full_log)
+    except _WallWatchdog:
+        o.status = "wall_watchdog"
+        rapp = state.get("rapp")
+        o.recs = rapp.records if rapp is not None else []
+    finally:
+        signal.setitimer(signal.ITIMER_REAL, 0)
+        signal.signal(signal.SIGALRM, old_handler)
+    _digest_recs(o)
+    return o
 
+
+def _deliver_inner(o, state, stream, cuts, gaps, cap, tapes, app_kind, kw, full_log):
+    with SimEnv(tapes, max_iters=cap, full_log=full_log) as env:
         async def main():
             server, ls, rapp = httprig.start_server(env, make_app(app_kind), **kw)
             state["rapp"] = rapp
@@ -187,8 +228,6 @@ def deliver(stream, seg, app_kind, server_kwargs, full_log=False, extra_tapes=No
         o.stats = env.stats()
         o.log_head = env.log.head
         o.log_full = env.log.full
-    _digest_recs(o)
-    return o
 
 
 def _digest_recs(o):
@@ -310,6 +349,11 @@ def judge(ref, o, bad, probe, tag=""):
     D = o.delivered
     for a in o.anomalies:
         bad("delegate.call_sequence", a, "delegate.call_sequence")
+    if o.status == "wall_watchdog":
+        bad("run.cpu_hang", "the server spun for more than %.0f s of real time inside one loop "
+            "callback without yielding (request bytes made it loop forever)" % WALL_CAP,
+            "run.cpu_hang")
+        return
     if o.status != "done":
         bad("run." + o.status.split(":")[0],
             "simulation ended with %s %s (peer eof=%s)" % (o.status, o.main_exc or "", o.eof),
@@ -376,8 +420,19 @@ def judge(ref, o, bad, probe, tag=""):
                              if o.tail is not None else "a 400 was produced for it"),
             "pipelined_after_close.parsed")
         return
+    if o.tail is not None and c == n and ref.end == "reject" and ref.partial is None:
+        t = o.tail
+        bad("reject.delivered",
+            "head of request %d (%s %s) was handed to the delegate although the "
+            "reference reader rejects it: %s" % (c, t[0], t[1], ref.reason),
+            "reject.delivered/" + ref.reason)
+        return
     # ---- logs: peer input must never surface as an application error
     for lg, lvl, msg, exc in o.records:
+        if exc == "_WallWatchdog":
+            bad("run.cpu_hang", "the server spun for more than %.0f s of real time inside one "
+                "loop callback without yielding" % WALL_CAP, "run.cpu_hang")
+            return
         if lvl in ("ERROR", "CRITICAL") and (lg == "tornado.application"
                                              or "Uncaught exception" in msg):
             bad("log.uncaught_exception",
@@ -428,10 +483,7 @@ def judge(ref, o, bad, probe, tag=""):
         t = o.tail
         if expect_tail is None:
             if c == n and ref.end == "reject":
-                bad("reject.delivered",
-                    "head of request %d (%s %s) was handed to the delegate although the "
-                    "reference reader rejects it: %s" % (c, t[0], t[1], ref.reason),
-                    "reject.delivered/" + ref.reason)
+                pass  # reported above (before the log check)
             elif c == n and ref.end == "clean":
                 bad("delivered.phantom", "head of a request beyond the end of the stream",
                     "delivered.phantom/head")
